@@ -8,9 +8,9 @@ import (
 
 func init() {
 	register(&propInfo{
-		ID:     "C01",
-		Run:    runC01,
-		MinObl: 12,
+		ID:          "C01",
+		Run:         runC01,
+		MinObl:      12,
 		Explanation: "Decided (structural necessary conditions of single-use + replay revocation): R1 in the code-redeem function the code is invalidated before any token session is created, the invalidate error is tested, both lie inside one open transaction and use the transaction context, and the invalidate key is the looked-up signature; R2 in the code-validate function the invalidated-code branch calls RevokeAccessToken and RevokeRefreshToken with the stored request's id and exits with an ErrInvalidGrant-derived error, and no success exit is reachable without the invalidated-code test having been evaluated false; R3 request-id continuity (SetID(GetID(stored)) on every success path of code-validate and refresh-validate; the requester persisted by the refresh-issue function carries GetID(request)); R4 the validate phase mutates storage only in the replay branch; R5 reference-store contract of MemoryStore (active flag written true only on create, invalidate stores active=false, lookup returns request+ErrInvalidatedAuthorizeCode exactly on !active, create writes table and request-id index, revoke resolves through the index). NOT decided: that every descendant token is inactive in every history (needs the store's dynamic state), other stores, concurrency of two redemptions (C19).",
 	})
 }
